@@ -15,7 +15,30 @@ trap 'git -C /repo worktree remove --force "$wt" >/dev/null 2>&1; rm -rf "$wt"' 
 if [ "$patch" = pinned ]; then
   # the pinned tree lacks the verif hooks: bring them over (add-only commits)
   for c in $(git -C /repo log --reverse --format=%h --grep='^verif hook' $rev..HEAD); do
-    git -C "$wt" cherry-pick -n $c >/dev/null 2>&1 || { echo "hook $c does not apply to pinned"; }
+    if ! git -C "$wt" cherry-pick -n $c >/dev/null 2>&1; then
+      # the hook was written against the repaired code.  fsloop/consumer.go: on the pinned tree the yield
+      # point goes between the emptiness test and the (late) read of the step - the window of defect 13.
+      # Any other conflicting file keeps its pre-repair text without yield points (gated replays that need
+      # them are then not available on the pinned tree; the differential and oracle parts are).
+      for f in $(git -C "$wt" diff --name-only --diff-filter=U); do
+        git -C "$wt" checkout --ours -- $f
+        if [ $f = filesystem/fsloop/consumer.go ]; then
+          python3 - "$wt/$f" <<'PY'
+import sys
+p = sys.argv[1]
+s = open(p).read()
+s = s.replace('import (\n\t"runtime"\n', 'import (\n\t"runtime"\n\n\t"github.com/goatcms/goatcore/verifhook"\n', 1)
+s = s.replace('\t\t\tif consumer.lifecycle.Step() == StepClose {', '\t\t\tverifhook.Yield("fsloop.consumer.gap")\n\t\t\tif consumer.lifecycle.Step() == StepClose {', 1)
+open(p, 'w').write(s)
+PY
+          gofmt -w "$wt/$f"
+        else
+          echo "pinned: $f keeps its pre-repair text without the yield points of hook $c"
+        fi
+        git -C "$wt" add $f
+      done
+    fi
+    git -C "$wt" -c user.email=x@x -c user.name=x commit -qm "hook $c" >/dev/null 2>&1
   done
 else
   git -C "$wt" apply "$patch" || { echo "patch does not apply"; exit 2; }
